@@ -46,6 +46,7 @@ type Env struct {
 	Scratch   string
 	World     string // plain world binary
 	RaceWorld string // -race world binary ("" when not built)
+	FineWorld string // world built with rule R4 ("" when not built)
 	FS        string // root of the simulated file system (homes, cwds)
 	Seams     *instrument.Report
 	VerifDir  string
@@ -83,6 +84,10 @@ func goModCache() string {
 // BuildWorlds instruments /repo's current tree and builds the world binaries.
 // Any failure here is "build trouble" (exit 2), never a violation.
 func BuildWorlds(verifDir, repoDir string, race, fine bool, mutate func(ovDir string, rep *instrument.Report) error) (*Env, error) {
+	return buildWorlds(verifDir, repoDir, race, fine, mutate)
+}
+
+func buildWorlds(verifDir, repoDir string, race, fine bool, mutate func(ovDir string, rep *instrument.Report) error) (*Env, error) {
 	t0 := time.Now()
 	base := os.Getenv("VERIF_SCRATCH")
 	if base == "" {
@@ -96,18 +101,31 @@ func BuildWorlds(verifDir, repoDir string, race, fine bool, mutate func(ovDir st
 		return nil, err
 	}
 	env := &Env{Scratch: scratch, VerifDir: verifDir, RepoDir: repoDir, FS: filepath.Join(scratch, "fs")}
-	rep, err := instrument.Build(instrument.Options{RepoDir: repoDir, OutDir: filepath.Join(scratch, "ov"), ModCache: goModCache(), FineYields: fine})
+	rep, err := instrument.Build(instrument.Options{RepoDir: repoDir, OutDir: filepath.Join(scratch, "ov"), ModCache: goModCache()})
 	if err != nil {
 		return env, fmt.Errorf("instrument: %w", err)
 	}
 	env.Seams = rep
+	var fineRep *instrument.Report
+	if fine {
+		fineRep, err = instrument.Build(instrument.Options{RepoDir: repoDir, OutDir: filepath.Join(scratch, "ovfine"), ModCache: goModCache(), FineYields: true})
+		if err != nil {
+			return env, fmt.Errorf("instrument (fine): %w", err)
+		}
+		rep.Seams["R4"] = fineRep.Seams["R4"]
+	}
 	if mutate != nil {
 		if err := mutate(filepath.Join(scratch, "ov"), rep); err != nil {
 			return env, err
 		}
 	}
 	build := func(out string, extra ...string) error {
-		args := []string{"build", "-tags", "verif", "-overlay", rep.OverlayFile}
+		ov := rep.OverlayFile
+		if len(extra) > 0 && extra[0] == "FINE" {
+			ov = fineRep.OverlayFile
+			extra = extra[1:]
+		}
+		args := []string{"build", "-tags", "verif", "-overlay", ov}
 		args = append(args, extra...)
 		args = append(args, "-o", out, "./cmd/simworld")
 		cmd := exec.Command("go", args...)
@@ -123,9 +141,14 @@ func BuildWorlds(verifDir, repoDir string, race, fine bool, mutate func(ovDir st
 	}
 	env.World = filepath.Join(scratch, "simworld")
 	var wg sync.WaitGroup
-	var e1, e2 error
+	var e1, e2, e3 error
 	wg.Add(1)
 	go func() { defer wg.Done(); e1 = build(env.World) }()
+	if fine {
+		env.FineWorld = filepath.Join(scratch, "simworld.fine")
+		wg.Add(1)
+		go func() { defer wg.Done(); e3 = build(env.FineWorld, "FINE") }()
+	}
 	if race {
 		env.RaceWorld = filepath.Join(scratch, "simworld.race")
 		wg.Add(1)
@@ -137,6 +160,9 @@ func BuildWorlds(verifDir, repoDir string, race, fine bool, mutate func(ovDir st
 	}
 	if e2 != nil {
 		return env, e2
+	}
+	if e3 != nil {
+		return env, e3
 	}
 	for _, d := range []string{"home/sim", "cwd"} {
 		_ = os.MkdirAll(filepath.Join(env.FS, d), 0o755)
@@ -178,6 +204,8 @@ func (e *Env) execWith(scs []*scen.Scenario, timeout time.Duration, extraEnv []s
 	bin := e.World
 	if first.World.Race && e.RaceWorld != "" {
 		bin = e.RaceWorld
+	} else if first.World.Fine && e.FineWorld != "" {
+		bin = e.FineWorld
 	}
 	argv0 := "simworld"
 	var extra []string
